@@ -30,6 +30,8 @@ const (
 	zzClsInt32
 	zzClsFloat32
 	zzClsUint8
+	zzClsUint64
+	zzClsUintptr
 	zzClsDecimal
 	zzClsNonNumeral
 	zzClsSymStr
@@ -38,7 +40,7 @@ const (
 	zzNumClasses
 )
 
-var zzClsNames = []string{"nil", "bool", "int64", "float64", "int32", "float32", "uint8", "decimal-string", "non-numeral-string", "sym-string", "slice", "map"}
+var zzClsNames = []string{"nil", "bool", "int64", "float64", "int32", "float32", "uint8", "uint64", "uintptr", "decimal-string", "non-numeral-string", "sym-string", "slice", "map"}
 
 type zzVal struct {
 	cls int
@@ -64,6 +66,11 @@ func zzC06Value(cls int) zzVal {
 		return zzVal{cls: cls, v: []float32{1.5, 0.1, 0, -3}[zz.Choose(4)]}
 	case zzClsUint8:
 		return zzVal{cls: cls, v: zz.Uint8()}
+	case zzClsUint64:
+		// the whole range, also beyond int64 (make([]uint64, 1); a[0] = -1 builds such a value in a script)
+		return zzVal{cls: cls, v: zz.Uint64()}
+	case zzClsUintptr:
+		return zzVal{cls: cls, v: uintptr(zz.Uint64())}
 	case zzClsDecimal:
 		i := zz.Choose(len(zzDecimalStrings))
 		return zzVal{cls: cls, v: zzDecimalStrings[i], idx: i}
@@ -120,6 +127,10 @@ func zzInTyped(x, y zzVal) (res bool, ok bool, applicable bool) {
 		list = []float32{v}
 	case uint8:
 		list = []uint8{v}
+	case uint64:
+		list = []uint64{v}
+	case uintptr:
+		list = []uintptr{v}
 	case bool:
 		list = []bool{v}
 	case string:
@@ -151,7 +162,11 @@ func ZZ_C06_laws() {
 	cx, cy := zz.Choose(zzNumClasses), zz.Choose(zzNumClasses)
 	x, y := zzC06Value(cx), zzC06Value(cy)
 	cls := zzClsNames[cx] + "," + zzClsNames[cy]
-	isScalar := func(c int) bool { return c >= zzClsBool && c <= zzClsUint8 }
+	isScalar := func(c int) bool { return c >= zzClsBool && c <= zzClsUintptr }
+	isBigUint := func(c int) bool { return c == zzClsUint64 || c == zzClsUintptr }
+	if (isBigUint(cx) && (cy == zzClsDecimal || cy == zzClsNonNumeral || cy == zzClsFloat32)) || (isBigUint(cy) && (cx == zzClsDecimal || cx == zzClsNonNumeral || cx == zzClsFloat32)) {
+		return // (numerals against unsigned values beyond int64: the string/number harness fixes the int64 / float64 readings only)
+	}
 	if (cx == zzClsSymStr && isScalar(cy)) || (cy == zzClsSymStr && isScalar(cx)) {
 		return // parsing of symbolic strings is not encoded; concrete pools cover string/number pairs
 	}
@@ -183,7 +198,33 @@ func ZZ_C06_laws() {
 // ZZ_C06_same_type: two values of the same primitive type are equal exactly
 // when Go's == says so (NaN != NaN).
 func ZZ_C06_same_type() {
-	switch zz.Choose(4) {
+	switch zz.Choose(8) {
+	case 4:
+		a, b := zz.Uint64(), zz.Uint64()
+		e, ok := zzCmp("==", zzVal{v: a}, zzVal{v: b})
+		zz.Assert(ok && e == (a == b), "C06.same-type/uint64")
+		n, ok2 := zzCmp("!=", zzVal{v: a}, zzVal{v: b})
+		zz.Assert(ok2 && n == (a != b), "C06.same-type/uint64")
+	case 5:
+		a, b := uintptr(zz.Uint64()), uintptr(zz.Uint64())
+		e, ok := zzCmp("==", zzVal{v: a}, zzVal{v: b})
+		zz.Assert(ok && e == (a == b), "C06.same-type/uintptr")
+	case 6:
+		a, b := zz.Uint8(), zz.Uint8()
+		e, ok := zzCmp("==", zzVal{v: a}, zzVal{v: b})
+		zz.Assert(ok && e == (a == b), "C06.same-type/uint8")
+	case 7:
+		// integers of different signedness are equal exactly when they denote the same number
+		u, i := zz.Uint64(), zz.Int64()
+		x, y := zzVal{v: u}, zzVal{v: i}
+		if zz.Choose(2) == 1 {
+			x, y = y, x
+		}
+		e, ok := zzCmp("==", x, y)
+		zz.Assert(ok && e == zz.And(i >= 0, uint64(i) == u), "C06.integers/unsigned-signed-equal-iff-same-number")
+		le, ok2 := zzCmp("<=", x, y)
+		ge, ok3 := zzCmp(">=", x, y)
+		zz.Assert(ok2 && ok3 && e == zz.And(le, ge), "C06.integers/unsigned-signed-eq-iff-le-and-ge")
 	case 0:
 		a, b := zz.Int64(), zz.Int64()
 		e, ok := zzCmp("==", zzVal{v: a}, zzVal{v: b})
